@@ -146,8 +146,6 @@ def _tail_pos(masked, ob):
     function has one, else just before the closing brace"""
     cb = lex.match_close(masked, ob)
     has_ret = "->" in masked[:ob]
-    if not has_ret:
-        return cb
     # last top-level ';'
     k = ob + 1
     depth = 0
@@ -183,7 +181,7 @@ def _tail_pos(masked, ob):
             e = lex.match_close(masked, b) + 1
         rest = masked[e:cb].strip()
         if rest == "":
-            return q      # the block is the tail expression
+            return q if has_ret else cb     # the block is the tail expression (unit-valued when there is no return type)
         pos = e
 
 
@@ -291,21 +289,19 @@ def build_fn(unit, file_spec, item_spec, opts, sections, log, probes=False):
         if n < 1 or n > len(loops):
             raise AssembleError("lost anchor: loop %d of %s (function has %d loops)" % (n, item_spec, len(loops)))
         body = "\n".join(secd[key])
-        # split into invariant clauses / decreases
+        # split into `invariant` / `invariant_except_break` / `ensures` / `decreases` groups
         lines = []
-        mi = re.search(r"\binvariant\b", body)
-        md = re.search(r"\bdecreases\b", body)
-        inv_txt = body[mi.end():md.start() if (md and md.start() > mi.end()) else len(body)] if mi else ""
-        dec_txt = body[md.end():] if md else ""
-        if mi and md and md.start() < mi.start():
-            raise AssembleError("loop section: put invariant before decreases")
-        if inv_txt.strip():
-            lines.append(("        invariant", None))
-            for i, c in enumerate(lex.split_top_level(inv_txt), 1):
-                lines.append(("            %s," % c, clause("loop%d.invariant" % n, i, c)))
-        if dec_txt.strip():
-            d = dec_txt.strip().rstrip(",")
-            lines.append(("        decreases %s," % d, clause("loop%d.decreases" % n, 0, d)))
+        marks = [(m.start(), m.end(), m.group(1)) for m in re.finditer(r"\b(invariant_except_break|invariant|ensures|decreases)\b", lex.mask(body))]
+        for gi, (ms, me, kw) in enumerate(marks):
+            gend = marks[gi + 1][0] if gi + 1 < len(marks) else len(body)
+            gtxt = body[me:gend]
+            if kw == "decreases":
+                d = gtxt.strip().rstrip(",")
+                lines.append(("        decreases %s," % d, clause("loop%d.decreases" % n, 0, d)))
+            else:
+                lines.append(("        %s" % kw, None))
+                for i, c in enumerate(lex.split_top_level(gtxt), 1):
+                    lines.append(("            %s," % c, clause("loop%d.%s" % (n, kw), i, c)))
         edits.append((loops[n - 1], 0, [("", None)] + lines + [("    ", None)]))
 
     def line_bounds(pos):
@@ -360,14 +356,31 @@ def build_fn(unit, file_spec, item_spec, opts, sections, log, probes=False):
                         p = ls
                     edits.append((p, 0, [(ln, c) for ln in body.split("\n")] + [("", None)]))
 
+    tm = re.match(r"(CompactEncoding|VecEncodable) for .*::(\w+)$", item_spec)
+    if tm:
+        TRAIT = {"encoded_size": ["Ok ==> result == |spec_enc(self)|", "encodable value of representable size ==> Ok"],
+                 "encode": ["Ok ==> buffer = spec_enc(self) ++ rest, rest = untouched tail", "encodable value and |buffer| >= |spec_enc| ==> Ok"],
+                 "decode": ["forall d. enc(d) prefix of buffer ==> Ok((d', rest)) with d' = d, rest = buffer after enc(d)",
+                            "forall d. buffer strict prefix of enc(d) ==> Err", "Ok ==> rest is a suffix of buffer"],
+                 "vec_encoded_size": ["Ok ==> result == |varint(len)| + sum |enc(elem)|", "encodable ==> Ok"]}
+        for i, t in enumerate(TRAIT.get(tm.group(2), []), 1):
+            info.clauses.append({"id": "trait-contract#%d" % i, "kind": "trait-contract", "text": t})
     info.probes = []
     if probes:
         def probe(pos, what):
             c = {"id": "probe:" + what, "kind": "probe", "text": what}
             info.probes.append(c)
             edits.append((pos, 9, [("", None), ("assert(false); // VP-PROBE %s" % what, c)]))
-        if "requires" in secd:
-            probe(ob + 1, "requires")
+        tp = _tail_pos(masked, ob)
+        if tp > ob + 1:
+            ls = text.rfind("\n", 0, tp) + 1
+            if text[ls:tp].strip() == "":
+                tp = ls
+            c = {"id": "probe:exit", "kind": "probe", "text": "exit (precondition, axioms in scope and callee contracts used in the body are consistent)"}
+            info.probes.append(c)
+            edits.append((tp, 8, [("assert(false); // VP-PROBE exit", c), ("", None)]))
+        else:
+            probe(ob + 1, "entry (precondition and axioms in scope are satisfiable)")
         for key in secd:
             m = re.match(r"loop\s+(\d+)$", key)
             if m and "invariant" in "\n".join(secd[key]):
